@@ -22,6 +22,8 @@ def encodings(b):
 
 def find(hay, secrets):
     hits = []
+    import re
+    hay = hay + b"\n" + re.sub(rb"[\s:,]", b"", hay)      # dumps are often broken into lines or groups
     for name, sec in secrets:
         if len(sec) < 8:
             continue
